@@ -36,6 +36,8 @@ type Disk struct {
 	IOLog        []IOEvent
 	MissingReads []string
 	DeletedBy    map[string]string
+	WrittenBy    map[string]string
+	Overwrites   []string // immutable-by-design files (.sst/.wal) whose content was replaced
 	pendingDel   []pendingDelete
 }
 
@@ -49,7 +51,7 @@ type IOEvent struct {
 type pendingDelete struct{ path, by string }
 
 func NewDisk(c *Ctx) *Disk {
-	return &Disk{c: c, files: map[string][]byte{}, dead: map[string]bool{}, FaultRate: map[string]int{}, DeletedBy: map[string]string{}}
+	return &Disk{c: c, files: map[string][]byte{}, dead: map[string]bool{}, FaultRate: map[string]int{}, DeletedBy: map[string]string{}, WrittenBy: map[string]string{}}
 }
 
 func (d *Disk) logIO(node, op, p string) {
@@ -98,7 +100,12 @@ func (d *Disk) Kill(node string) { d.mu.Lock(); d.dead[node] = true; d.mu.Unlock
 
 func (d *Disk) publish(node, p string, data []byte) {
 	d.mu.Lock()
+	if old, ok := d.files[p]; ok && !bytes.Equal(old, data) && (strings.HasSuffix(p, ".sst") || strings.HasSuffix(p, ".wal")) {
+		d.Overwrites = append(d.Overwrites, fmt.Sprintf("%s: written by %s, replaced by %s (seq %d)", p, d.WrittenBy[p], node, d.seq))
+		simrt.Log("io " + node + " OVERWRITE " + p)
+	}
 	d.files[p] = data
+	d.WrittenBy[p] = node
 	delete(d.DeletedBy, p)
 	d.mu.Unlock()
 }
@@ -154,6 +161,7 @@ func (d *Disk) RemoveWhere(pred func(p string) bool, by string) {
 	}
 	d.mu.Unlock()
 }
+func (d *Disk) WhoWrote(p string) string   { d.mu.Lock(); defer d.mu.Unlock(); return d.WrittenBy[p] }
 func (d *Disk) WhoDeleted(p string) string { d.mu.Lock(); defer d.mu.Unlock(); return d.DeletedBy[p] }
 
 // ApplyPendingDeletes applies, in sorted order, the deletions that
